@@ -105,6 +105,11 @@ class Fn:
         self.node = T.find_def(tree, name, rel)
         if not isinstance(self.node, ast.FunctionDef):
             T.fail(rel, self.node, "%s is not a function" % name)
+        # decorators can change what a call returns (caching, wrapping): only the mesh-type guards are understood
+        for d in self.node.decorator_list:
+            dn = T.dotted(d.func) if isinstance(d, ast.Call) else T.dotted(d)
+            if dn not in ("allowed_mesh_types", "forbidden_mesh_types"):
+                T.fail(rel, d, "decorator on generator %s is not understood" % name)
         self.g = out_name or name
         self.body = T.body_nodoc(self.node)
         self.params = self._params()
